@@ -1,8 +1,10 @@
 #!/usr/bin/env python3
 """Translator for C06: writable process-global state of the library built from /repo's current source.
 
-`nm -C` over build/lib/libIPhreeqc.a: every defined symbol in a writable data section (B b D d C — .bss/.data/common),
-i.e. every file-scope variable, static class member and function-local static that is not placed in read-only memory.
+`nm -C --format=sysv` over build/lib/libIPhreeqc.a: every defined object symbol whose SECTION is writable at run time
+(.bss* / .data* except .data.rel.ro* / thread-local / common), strong or weak — i.e. every file-scope variable, static class
+member (of classes and class templates), inline variable and function-local static (of ordinary, inline and template
+functions) that is not placed in read-only memory.
 `std::__ioinit` (the iostream initialiser object each TU gets from <iostream>) is dropped. Also lists calls into libc
 functions that keep hidden static state (undefined symbols of the archive).  Written to
 lean/PhreeqcVerif/Gen/Globals.lean; Properties/C06.lean proves that every symbol is accounted for by the reviewed policy
@@ -19,38 +21,95 @@ NONREENTRANT = {"strtok", "rand", "srand", "localtime", "gmtime", "asctime", "ct
                 "putenv", "setenv", "unsetenv", "strerror", "drand48", "lrand48", "srand48", "readdir", "getpwnam", "ttyname"}
 
 
+WRITABLE_SECTION = re.compile(r"^(\.bss|\.data|\.tbss|\.tdata|\.lbss|\.ldata|\*COM\*)")
+READONLY_AFTER_RELOC = re.compile(r"^\.data\.rel\.ro")
+
+
 def collect(lib):
-    r = subprocess.run(["nm", "-C", str(lib)], capture_output=True, text=True)
+    """every defined OBJECT symbol of the archive that lives in a section writable at run time: strong (B b D d C) and also
+    weak / unique ones (V v W w u — function-local statics of inline functions and templates, static members of class
+    templates, inline variables). `nm --format=sysv` gives the section of each symbol; `.data.rel.ro*` (vtables, typeinfo,
+    const tables holding addresses) is read-only once the loader has relocated it and is left out, `.rodata*` likewise."""
+    r = subprocess.run(["nm", "-C", "--format=sysv", str(lib)], capture_output=True, text=True)
     if r.returncode or not r.stdout.strip():
         raise RuntimeError("gen_globals: nm failed on " + str(lib) + ": " + r.stderr[-300:])
     obj = "?"
     syms, undef = set(), set()
-    nobj = 0
+    nobj = nweak = 0
     for line in r.stdout.splitlines():
-        m = re.match(r"^(\S+\.o):$", line)
+        m = re.match(r"^Symbols from .*\[(\S+\.o)\]:$", line)
         if m:
             obj = m.group(1)
             nobj += 1
             continue
-        m = re.match(r"^[0-9a-f]*\s+([A-Za-z])\s+(.*)$", line)
-        if not m:
+        f = [x.strip() for x in line.split("|")]
+        if len(f) != 7 or f[0] == "Name":
             continue
-        sec, name = m.group(1), m.group(2).strip()
-        if sec in "BbDdC":
-            if name == "std::__ioinit":
-                continue
-            name = re.sub(r"\[abi:cxx11\]", "", name)
-            # function-local statics: keep "func(...)::name" but drop the parameter list for stability
-            name = re.sub(r"\(.*\)(::)", r"()\1", name)
-            # guard variables of function-local statics
-            syms.add((obj, name))
-        elif sec == "U":
+        name, cls, typ, sec = f[0], f[2], f[3], f[6]
+        if cls == "U":
             base = name.split("@")[0]
             if base in NONREENTRANT:
                 undef.add((obj, base))
+            continue
+        if typ not in ("OBJECT", "TLS", "COMMON", "NOTYPE") or cls not in "BbDdCVvWwuGgSs":
+            continue
+        if not WRITABLE_SECTION.match(sec) or READONLY_AFTER_RELOC.match(sec):
+            continue
+        if name == "std::__ioinit":
+            continue
+        if cls in "VvWwu":
+            nweak += 1
+        name = re.sub(r"\[abi:cxx11\]", "", name)
+        # function-local statics: keep "func(...)::name" but drop the parameter list for stability
+        name = re.sub(r"\(.*\)(::)", r"()\1", name)
+        if name.startswith("DW.ref."):
+            name = "DW.ref.*"          # compiler-generated pointer to a personality routine / typeinfo (exception tables)
+        syms.add((obj, name))
     if nobj < 40:
         raise RuntimeError(f"gen_globals: only {nobj} object files in the archive (build incomplete?)")
+    if nweak == 0:
+        raise RuntimeError("gen_globals: no weak object symbol seen at all (nm output format changed?)")
     return sorted(syms), sorted(undef)
+
+
+INIT_ONLY = ["F_Re3", "temp_vopts", "vopts", "temp_keywords", "temp_keyword_names", "phreeqc_keywords", "phreeqc_keyword_names",
+             "temp_tokens", "command_tokens", "iso_defaults", "Version"]
+MUTATE_AFTER = re.compile(r"\s*(?:\[[^\]]*\]\s*)*(?:=(?!=)|\+=|-=|\*=|/=|\+\+|--|\.\s*(?:push_back|insert|erase|clear|resize|assign|swap|emplace\w*|append)\b|\[[^\]]*\]\s*\.\s*(?:assign|append|clear|swap)\b)")
+MUTATE_BEFORE = re.compile(r"(?:\+\+|--|&)\s*(?:\w+::)*$")
+DECL_PREFIX = re.compile(r"^[\s\w:<>,\*&]*[\w>\*&][\s\*&]+(?:\w+::)*$")
+
+
+def init_only_facts(repo):
+    """source reading that backs the reason "written only by its initialiser": for every table name, whether each of its
+    definitions is const-qualified and how many other occurrences in src/ could modify it (assignment, increment, container
+    mutation, address taken)"""
+    import gen_lock_audit
+    files = [f for f in sorted((repo / "src").rglob("*")) if f.suffix in (".cpp", ".cxx", ".h", ".hpp", ".hxx", ".c")]
+    texts = {f: re.sub(r"^[ \t]*#[^\n]*(?:\\\n[^\n]*)*", lambda m: "\n" * m.group(0).count("\n"),
+                       gen_lock_audit.strip_c(f.read_text(errors="replace")), flags=re.M) for f in files}
+    out = []
+    for name in INIT_ONLY:
+        ndef = nconst = nmut = nuse = 0
+        where = []
+        for f, src in texts.items():
+            if name == "Version" and f.name not in ("IPhreeqc.cpp", "IPhreeqc.hpp") and "IPhreeqc::Version" not in src:
+                continue
+            for m in re.finditer(r"\b" + name + r"\b", src):
+                st = max(src.rfind(";", 0, m.start()), src.rfind("{", 0, m.start()), src.rfind("}", 0, m.start()), src.rfind(":\n", 0, m.start())) + 1
+                prefix = src[st:m.start()]
+                prefix = re.sub(r"^\s*(public|private|protected)\s*:", "", prefix)
+                if DECL_PREFIX.match(prefix) and not re.search(r"\b(return|sizeof|delete|new|case|else|goto|throw)\b", prefix):
+                    ndef += 1
+                    nconst += bool(re.search(r"\bconst\b", prefix))
+                    continue
+                nuse += 1
+                if MUTATE_AFTER.match(src, m.end()) or MUTATE_BEFORE.search(src[max(0, m.start() - 40):m.start()]):
+                    nmut += 1
+                    where.append(f"{f.relative_to(repo)}:{src.count(chr(10), 0, m.start()) + 1}")
+        if ndef == 0:
+            raise RuntimeError(f"gen_globals: no definition of {name} found in src/ (code shape changed)")
+        out.append((name, ndef, nconst, nuse, nmut, where[:5]))
+    return out
 
 
 def lstr(s):
@@ -71,12 +130,17 @@ def generate(ctx=None):
     L += [",\n".join(f"  ({lstr(o)}, {lstr(n)}, {lstr(n.split('::')[-1])})" for o, n in syms)]
     L += ["]", "", "/-- calls into libc functions with hidden static state -/", "def nonReentrantCalls : List (String × String) := ["]
     L += [",\n".join(f"  ({lstr(o)}, {lstr(n)})" for o, n in undef)]
+    facts = init_only_facts(vlib.REPO)
+    L += ["]", "", "/-- tables the policy calls \"written only by their initialiser\": (name, declarations/definitions found in src/, how many",
+          "of them are const-qualified, other occurrences, occurrences that could modify the object) -/",
+          "def initOnly : List (String × Nat × Nat × Nat × Nat) := ["]
+    L += [",\n".join(f"  ({lstr(n)}, {d}, {c}, {u}, {m})" for n, d, c, u, m, _ in facts)]
     L += ["]", "", "end PhreeqcVerif.Gen.Globals", ""]
     text = "\n".join(L)
     out = vlib.LEAN / "PhreeqcVerif" / "Gen" / "Globals.lean"
     if not out.exists() or out.read_text() != text:
         out.write_text(text)
-    return {"writable": syms, "nonreentrant": undef}
+    return {"writable": syms, "nonreentrant": undef, "init_only": facts}
 
 
 if __name__ == "__main__":
@@ -84,3 +148,5 @@ if __name__ == "__main__":
     for o, n in r["writable"]:
         print(o, n)
     print(r["nonreentrant"])
+    for f in r["init_only"]:
+        print("init-only", f)
